@@ -249,6 +249,33 @@ def judge(ctx, c, answers):
                         ctx.violation('correspondence:pda_simulate', {'case': dict(sub, sched=s), 'model': la}, no_input=True)
                 ctx.count('pda:accepted' if acc else 'pda:rejected')
                 ctx.case(sub, acc and len(w) >= 1)
+            # history: the SAME object after one target set was replaced under an existing key (the number of keys does not change);
+            # the traces must follow the current transition table
+            keys = sorted(k0 for k0, T in P.delta.items() if T)
+            if keys and ws and 'words' not in c:
+                import random
+                r = random.Random(core.digest(c['X']))
+                k0 = r.choice(keys)
+                t_old = sorted(P.delta[k0])[0]
+                t_new = (r.choice(sorted(P.Q)), t_old[1])
+                P.delta[k0] = (set(P.delta[k0]) - {t_old}) | {t_new}
+                from gambatools.pda_algorithms import pda_accepts_word
+                for w in ws[:6]:
+                    acc = oracles.pda_accepts(P, w)
+                    says = call(pda_accepts_word, P, w, limit=5).get('ok')
+                    got = call(pda_simulate_word, P, w, limit=5)
+                    sub = dict(kind=k, X=c['X'], w=w, n=c.get('n', len(w)), edited=[list(k0), list(t_old), list(t_new)])
+                    if 'ok' not in got:
+                        if got.get('err') != 'fuel':
+                            ctx.violation('pda-trace-after-edit', {'case': sub, 'problem': 'raises: %s %s' % (got.get('err'), got.get('msg')), 'accepted': acc})
+                    elif got['ok'] is not None:
+                        tr = [[q, u, list(st)] for q, u, st in got['ok']]
+                        err = check_pda_trace(P, w, tr)
+                        if err or not acc:
+                            ctx.violation('pda-trace-after-edit', {'case': sub, 'problem': err or 'trace for a rejected word', 'impl': tr})
+                    elif says:
+                        ctx.violation('pda-trace-after-edit', {'case': sub, 'problem': 'accepted (same limit) but no trace'})
+                ctx.count('pda:edit-history')
         finally:
             GambaTools.pda_epsilon_closure_max_iterations = old
     else:
